@@ -2,14 +2,11 @@
 """Writes MANIFEST.json from the table below (kept next to the checks so it stays valid)."""
 import json, os
 V = os.path.dirname(os.path.dirname(os.path.abspath(__file__)))
-CLAIMED = {
- "C01": dict(category="model_checking", technique="TLA+ spec Attest.tla: TLC exhaustive model check + replay of every TLC-generated transition on the real keeper + TLC evaluation of the C01 formulas on recorded real behaviours",
-             text="Attest.tla models claim attestation/oracle membership of one bridge module; TLC checks the C01 formulas (nonce advances by one, one observed variant per nonce, no double vote, no skipped nonce, parked claim effects at most once) on all interleavings of a bounded oracle population, and every generated transition (accepted and rejected operations) is executed on branches of the real multistore with the projected real state compared after each step; the same formulas are then evaluated by TLC on behaviours recorded from the real code.",
-             note="bounded: 2-3 oracles, 2 nonces, 2 competing variants, <=2 membership operations; oracle slashing applied at keeper level; claims are SendToFx deposits; trusted: TLC, the abstraction function (raw store reads)", ref="5 (C01-C02)"),
- "C02": dict(category="model_checking", technique="TLA+ spec Attest.tla: TLC exhaustive model check + replay of every TLC-generated transition on the real keeper + TLC evaluation of the C02 formulas on recorded real behaviours",
-             text="Same specification and binding as C01; formulas: an observation is justified by >=66% (as the code truncates) of the recorded total power summed over DISTINCT registered voters of that very variant, every vote is cast by the registered bridger of an online oracle who is also the transaction signer, recorded total power >= online power, no oracle twice in a tally. Stake distributions straddle the threshold (65/35, 34/33/33).",
-             note="bounded oracle count (2-3), not 100; stake symbolic analysis not done; same trusted base as C01", ref="5 (C01-C02)"),
-}
+import sys
+sys.path.insert(0, os.path.join(V, 'bin'))
+import specs
+specs.load_all()
+CLAIMED = specs.MANIFEST
 NOT_YET = {}
 def main():
     props = [json.loads(l) for l in open(os.path.join(V, "properties.jsonl"))]
